@@ -477,18 +477,74 @@ def read_guards(cd: CoreDefs) -> str:
     if {_src(c) for c in hdr_reads} != want:
         raise TranslateError("_read_message: recv_into calls changed: " + "; ".join(_src(c) for c in hdr_reads))
 
+    def _disconnects(stmts: List[ast.stmt], what: str) -> bool:
+        """stmts must be  [self._connected = False ;] raise ConnectionLost ; returns whether the flag is cleared"""
+        srcs = [_src(x) for x in stmts]
+        if srcs == ["self._connected = False", "raise ConnectionLost"]:
+            return True
+        if srcs == ["raise ConnectionLost"]:
+            return False
+        raise TranslateError(f"{what}: unexpected loss-reporting statements {srcs}")
+
+    def recv_try(call_src: str, what: str) -> Tuple[bool, bool]:
+        """the try block around a recv_into: (short read clears _connected, ConnectionError clears _connected)"""
+        ts = [t for t in ast.walk(fn) if isinstance(t, ast.Try) and any(
+            isinstance(c, ast.Call) and _src(c) == call_src for c in ast.walk(ast.Module(body=t.body, type_ignores=[])))]
+        if len(ts) != 1:
+            raise TranslateError(f"_read_message: {what}: {len(ts)} try blocks around {call_src}")
+        t = ts[0]
+        if t.orelse or t.finalbody or len(t.handlers) != 1 or _src(t.handlers[0].type) != "ConnectionError":
+            raise TranslateError(f"_read_message: {what}: handlers changed")
+        shorts = [x for x in t.body if isinstance(x, ast.If) and "nbytes" in names_in(x.test)]
+        if len(shorts) != 1 or shorts[0].orelse or not isinstance(shorts[0].test, ast.Compare) \
+                or not isinstance(shorts[0].test.ops[0], ast.NotEq):
+            raise TranslateError(f"_read_message: {what}: short-read check changed")
+        size_arg = call_src.split(", ")[1]
+        if _src(shorts[0].test) != f"nbytes != {size_arg}":
+            raise TranslateError(f"_read_message: {what}: short-read test is `{_src(shorts[0].test)}`")
+        first = t.body[0]
+        if _src(first) != f"nbytes = {call_src}":
+            raise TranslateError(f"_read_message: {what}: try body does not start with the recv_into")
+        return _disconnects(list(shorts[0].body), what + " short read"), \
+            _disconnects(list(t.handlers[0].body), what + " ConnectionError")
+
+    hdr_short_disc, hdr_reset_disc = recv_try("self._sock.recv_into(header, header.size, socket.MSG_WAITALL)", "header read")
+    data_short_disc, data_reset_disc = recv_try("self._sock.recv_into(data, type_size, socket.MSG_WAITALL)", "payload read")
+
+    # Client._drain(nbytes): try: raw = self._sock.recv(nbytes, socket.MSG_WAITALL) / except ConnectionError: ... /
+    #                        [if len(raw) != nbytes: ...] / return raw
+    dfn = find_func(tree, "_drain", "Client")
+    if [a.arg for a in dfn.args.args] != ["self", "nbytes"] or dfn.decorator_list:
+        raise TranslateError("Client._drain: signature changed")
+    db = _body(dfn)
+    if not (len(db) in (2, 3) and isinstance(db[0], ast.Try) and isinstance(db[-1], ast.Return)
+            and _src(db[-1]) == "return raw"):
+        raise TranslateError("Client._drain: unexpected shape")
+    dt = db[0]
+    if [_src(x) for x in dt.body] != ["raw = self._sock.recv(nbytes, socket.MSG_WAITALL)"] or dt.orelse or dt.finalbody \
+            or len(dt.handlers) != 1 or _src(dt.handlers[0].type) != "ConnectionError":
+        raise TranslateError("Client._drain: the drain is not `raw = self._sock.recv(nbytes, socket.MSG_WAITALL)` "
+                             "inside try/except ConnectionError")
+    drain_reset_disc = _disconnects(list(dt.handlers[0].body), "_drain ConnectionError")
+    drain_short_checked, drain_short_disc = False, False
+    if len(db) == 3:
+        chk_ = db[1]
+        if not (isinstance(chk_, ast.If) and not chk_.orelse and _src(chk_.test) == "len(raw) != nbytes"):
+            raise TranslateError(f"Client._drain: unexpected statement `{_src(chk_)}`")
+        drain_short_checked = True
+        drain_short_disc = _disconnects(list(chk_.body), "_drain short read")
+
     def drain_of(stmts: List[ast.stmt], what: str) -> str:
         calls = []
         for s in stmts:
             for c in ast.walk(s):
-                if isinstance(c, ast.Call) and isinstance(c.func, ast.Attribute) and c.func.attr == "recv" \
-                        and _src(c.func.value) == "self._sock":
+                if isinstance(c, ast.Call) and isinstance(c.func, ast.Attribute) and c.func.attr in ("recv", "_drain", "recv_into"):
                     calls.append(c)
         if len(calls) != 1:
-            raise TranslateError(f"_read_message: {what} branch has {len(calls)} drain recv calls")
+            raise TranslateError(f"_read_message: {what} branch has {len(calls)} drain calls")
         c = calls[0]
-        if len(c.args) != 2 or c.keywords or _src(c.args[1]) != "socket.MSG_WAITALL":
-            raise TranslateError(f"_read_message: {what} drain is not recv(<len>, socket.MSG_WAITALL): {_src(c)}")
+        if _src(c.func) != "self._drain" or len(c.args) != 1 or c.keywords:
+            raise TranslateError(f"_read_message: {what} drain is not self._drain(<len>): {_src(c)}")
         if not isinstance(stmts[-1], ast.Raise):
             raise TranslateError(f"_read_message: {what} branch does not end in raise")
         first_recv = next(i for i, s in enumerate(stmts) if any(x is c for x in ast.walk(s)))
@@ -549,6 +605,15 @@ def read_guards(cd: CoreDefs) -> str:
         f"Definition drain_len_unknown (n : Z) : Z := {d_unknown}.",
         f"Definition drain_len_size (type_size n : Z) : Z := {d_size}.",
         f"Definition drain_len_version (type_size n : Z) : Z := {d_ver}.",
+        "(* does the path clear Client._connected before raising ConnectionLost? *)",
+        f"Definition hdr_short_disconnects : bool := {str(hdr_short_disc).lower()}.",
+        f"Definition hdr_reset_disconnects : bool := {str(hdr_reset_disc).lower()}.",
+        f"Definition data_short_disconnects : bool := {str(data_short_disc).lower()}.",
+        f"Definition data_reset_disconnects : bool := {str(data_reset_disc).lower()}.",
+        "(* Client._drain: ConnectionError -> ConnectionLost; is a short drain checked (`len(raw) != nbytes`)? *)",
+        f"Definition drain_reset_disconnects : bool := {str(drain_reset_disc).lower()}.",
+        f"Definition drain_short_checked : bool := {str(drain_short_checked).lower()}.",
+        f"Definition drain_short_disconnects : bool := {str(drain_short_disc).lower()}.",
     ]
     if offs["msg_type"][2] != "Int32" or offs["num_data_bytes"][2] != "Int32" or offs["reserved"][2] not in ("Uint32", "Int32"):
         raise TranslateError("MessageHeader: msg_type/num_data_bytes/reserved field types changed")
